@@ -110,6 +110,27 @@ func checkModel(r *Repo, ti *tmplInfo, rg *region, m *model, ri int, name string
 	}
 	u := m.universe()
 	fl := &flow{gf: gf, u: u, info: gf.in.Info}
+	fl.childFirst = func(name string) *NSet {
+		var idx int
+		if _, err := fmt.Sscanf(strings.TrimPrefix(name, "__c"), "%d", &idx); err != nil {
+			return nil
+		}
+		for _, oi := range m.opaque {
+			if oi.idx == idx {
+				return oi.first
+			}
+		}
+		return nil
+	}
+	fl.ruleFirst = func(name string) *NSet { return m.ruleFirst(name) }
+	fl.nilRule = func(name string) bool {
+		for i, rl := range m.rules {
+			if m.strOf(rl) == name && i+1 < len(gf.rules) {
+				return gf.rules[i+1] == nil
+			}
+		}
+		return false
+	}
 	fl.ruleCanFail = func(name string) bool {
 		rule, _ := m.tree.field("Rules").v.(*MapV).m[name].(*Obj)
 		if rule == nil {
@@ -188,4 +209,97 @@ func (tv *templateVerdict) replay() string {
 	var sb strings.Builder
 	sb.WriteString("model: " + tv.Name + "\n--- emitted rule table ---\n" + tv.RuleText + "\n--- extra outcomes ---\n" + strings.Join(tv.Extra, "\n") + "\n--- missing outcomes ---\n" + strings.Join(tv.Missing, "\n") + "\n--- type errors ---\n" + strings.Join(tv.TypeErrs, "\n") + "\n")
 	return sb.String()
+}
+
+// checkModelAgainst analyses the code emitted for m1 and compares it with the
+// oracle evaluated on the reference model m0 (same construction, no rewrite).
+func checkModelAgainst(r *Repo, ti *tmplInfo, rg *region, m1, m0 *model, ri int, name string) *templateVerdict {
+	tv := checkModel(r, ti, rg, m1, ri, name)
+	if tv.EmitErr != "" || len(tv.TypeErrs) > 0 || tv.Skipped != "" || tv.gf == nil {
+		return tv
+	}
+	u := m1.universe()
+	// the reference oracle needs the same universe (the rewrite only adds copies of existing literals)
+	sp := &specEval{m: m0, u: u, ast: m0.opts.Ast, fuel: 400000}
+	tv.Want = nil
+	for _, o := range sp.ruleOutcomes(m0.rules[ri]) {
+		tv.Want = append(tv.Want, o)
+	}
+	tv.Und = append(tv.Und, uniq(sp.und)...)
+	return tv
+}
+
+func parallel(n int, f func(i int)) {
+	sem := make(chan struct{}, 16)
+	done := make(chan struct{}, n)
+	for i := 0; i < n; i++ {
+		sem <- struct{}{}
+		go func(i int) {
+			defer func() { <-sem; done <- struct{}{} }()
+			f(i)
+		}(i)
+	}
+	for i := 0; i < n; i++ {
+		<-done
+	}
+}
+
+// ruleFirst: FIRST set of a rule that must consume (else nil).
+func (m *model) ruleFirst(name string) *NSet {
+	rule, _ := m.tree.field("Rules").v.(*MapV).m[name].(*Obj)
+	if rule == nil {
+		return nil
+	}
+	has := false
+	var walk func(x *Obj, d int)
+	walk = func(x *Obj, d int) {
+		if x == nil || d > 14 {
+			return
+		}
+		if m.typeOf(x) == "TypeUnorderedAlternate" {
+			has = true
+		}
+		for _, k := range m.kids(x) {
+			if m.typeOf(k) != "TypeRule" {
+				walk(k, d+1)
+			}
+		}
+	}
+	walk(rule, 0)
+	if has {
+		return nil
+	}
+	c, s := m.firstOracle(rule, map[*Obj]bool{})
+	if !c {
+		return nil
+	}
+	return s
+}
+
+// projectMulti is project for projections that expand one outcome into several.
+func (tv *templateVerdict) projectMulti(proj func(outcome) []string) (missing, extra []string) {
+	g, w := map[string]bool{}, map[string]bool{}
+	for _, o := range tv.Got {
+		for _, k := range proj(o) {
+			g[k] = true
+		}
+	}
+	for _, o := range tv.Want {
+		for _, k := range proj(o) {
+			w[k] = true
+		}
+	}
+	for k := range w {
+		if !g[k] {
+			missing = append(missing, k)
+		}
+	}
+	for k := range g {
+		if !w[k] {
+			extra = append(extra, k)
+		}
+	}
+	sort.Strings(missing)
+	sort.Strings(extra)
+	return
 }
